@@ -133,6 +133,10 @@ def run(repo: Repo, rep: Report, tier: str) -> None:
     _hc.report(repo, rep, "R08.8", _hc.codegen_option_contract(repo), "mashumaro.core.meta.code.builder::CodeBuilder.is_code_generation_option_enabled")
     from ..core import helper_contracts as _hc2
     _hc2.report(repo, rep, "R09.6", _hc2.dataclass_fields_contract(repo), "mashumaro.core.meta.code.builder::CodeBuilder.dataclass_fields")
+    from ..core.report import Only as _Only8
+    from . import c19 as _c19, c13 as _c13
+    _c19._flag_contract(repo, _Only8(rep, {"R19.6"}))
+    _c13._merge(repo, _Only8(rep, {"R13.1"}))
 
 def _r08_2(repo: Repo, rep: Report) -> None:
     fi = repo.func(M_BUILDER, "CodeBuilder.get_dialect_or_config_option")
@@ -266,3 +270,6 @@ LEVEL_TEXT += _ADD2
 _ADD3 = " Borrowed: R09.6 (dataclass_fields: the nearest ancestor's Field wins; a bare re-annotation drops the inherited Field)."
 EXPLANATION += _ADD3
 LEVEL_TEXT += _ADD3
+_ADD21 = ' Borrowed: R19.6 (flag forwarding), R13.1 (Dialect.merge).'
+EXPLANATION += _ADD21
+LEVEL_TEXT += _ADD21
